@@ -266,6 +266,45 @@ def check(repo: Repo, run: Run) -> None:
                     else:
                         run.inconclusive("C14.F8", key, f"where `{ast.unparse(arg)[:50]}` comes from was not recognised")
     run.floor("C14.F8", n8, 2)
+    # F9: once per call site and element.  The interpreter's macro builders return a closure that evaluates the body
+    # for one element; the closure must run the body on every call.  A closure that keeps results in a container of
+    # the enclosing scope (a memo keyed by the element) calls a host function in the body once per *distinct*
+    # element and hands repeated elements the earlier result - recognised wrong form.
+    n9 = 0
+    for bname in ("build_macro_eval", "build_ss_macro_eval", "build_reduce_macro_eval"):
+        bfn = emeths.get(bname)
+        if bfn is None:
+            continue
+        n9 += 1
+        outer_containers = set()
+        for n in bfn.body:
+            for a in ([n] if isinstance(n, (ast.Assign, ast.AnnAssign)) else []):
+                v = strip_cast(a.value) if a.value is not None else None
+                tgt = a.targets[0] if isinstance(a, ast.Assign) else a.target
+                if isinstance(tgt, ast.Name) and v is not None and (isinstance(v, (ast.Dict, ast.List, ast.Set)) or (
+                        isinstance(v, ast.Call) and (dotted(v.func) or "").split(".")[-1] in ("dict", "list", "set", "defaultdict", "OrderedDict", "WeakValueDictionary", "lru_cache"))):
+                    outer_containers.add(tgt.id)
+        memo = None
+        for inner in [n for n in ast.walk(bfn) if isinstance(n, (ast.FunctionDef, ast.Lambda)) and n is not bfn]:
+            stores = {x.value.id for x in ast.walk(inner) if isinstance(x, ast.Subscript) and isinstance(x.ctx, ast.Store) and isinstance(x.value, ast.Name)}
+            stores |= {x.func.value.id for x in ast.walk(inner) if isinstance(x, ast.Call) and isinstance(x.func, ast.Attribute) and x.func.attr in ("setdefault", "append", "add", "update")
+                       and isinstance(x.func.value, ast.Name)}
+            loads = {x.value.id for x in ast.walk(inner) if isinstance(x, ast.Subscript) and isinstance(x.ctx, ast.Load) and isinstance(x.value, ast.Name)}
+            loads |= {x.func.value.id for x in ast.walk(inner) if isinstance(x, ast.Call) and isinstance(x.func, ast.Attribute) and x.func.attr in ("get", "setdefault", "pop")
+                      and isinstance(x.func.value, ast.Name)}
+            hit = stores & loads & outer_containers
+            if hit:
+                memo = (sorted(hit)[0], inner)
+            decos = [d for d in getattr(inner, "decorator_list", []) if "cache" in ast.unparse(d)]
+            if decos:
+                memo = (ast.unparse(decos[0]), inner)
+        if memo:
+            run.ob("C14.F9", f"Evaluator.{bname}|body runs per element", False,
+                   f"the closure {bname} returns keeps body results in `{memo[0]}` of the enclosing scope and returns them for later elements: a function called in the macro body "
+                   "runs once per distinct element instead of once per element", ev.loc(memo[1]))
+        else:
+            run.ob("C14.F9", f"Evaluator.{bname}|body runs per element", True, f"the closure {bname} returns keeps no results between elements", ev.loc(bfn))
+    run.floor("C14.F9", n9, 2)
     # the call shape: f(*args) vs f(receiver, *args) - the callable is the variable bound from resolve_function(...)
     def host_calls(fn: ast.FunctionDef):
         bound = {t.id for n in ast.walk(fn) if isinstance(n, (ast.Assign, ast.AnnAssign)) and n.value is not None
